@@ -3,7 +3,8 @@ C30: a small model of the array expression engine (`dask/array/_array_expr`), 1-
 
 Python                                                       Lean
 ------                                                       ----
-FromArray / Elemwise(neg) / Elemwise(add) /                  `AE` constructors `leaf neg add slice rechunk concat finalize`
+FromArray / Elemwise(neg) / Elemwise(add) /                  `AE` constructors `leaf un bin binS slice rechunk concat finalize`
+  (unary neg/abs/square, binary add/sub/mul/maximum, array ∘ scalar)
   SliceSlicesIntegers (step 1) / Rechunk, TasksRechunk /
   Concatenate / FinalizeComputeArray
 `.chunks` of every node                                      `chunks` (`common_blockdim` of two known chunkings = `refine`;
@@ -21,10 +22,27 @@ Import-free.
 -/
 namespace Dask.ArrayExpr
 
+inductive UnOp where | neg | abs | square
+  deriving Repr, BEq, DecidableEq
+inductive BinOp where | add | sub | mul | max
+  deriving Repr, BEq, DecidableEq
+
+def UnOp.fn : UnOp → Int → Int
+  | .neg => fun v => -v
+  | .abs => fun v => if v < 0 then -v else v
+  | .square => fun v => v * v
+
+def BinOp.fn : BinOp → Int → Int → Int
+  | .add => (· + ·)
+  | .sub => (· - ·)
+  | .mul => (· * ·)
+  | .max => fun a b => if a < b then b else a
+
 inductive AE where
   | leaf (d : List Int) (c : List Nat)
-  | neg (a : AE)
-  | add (a b : AE)
+  | un (op : UnOp) (a : AE)
+  | bin (op : BinOp) (a b : AE)
+  | binS (op : BinOp) (a : AE) (s : Int)
   | slice (s e : Nat) (a : AE)
   | rechunk (c : List Nat) (a : AE)
   | concat (a b : AE)
@@ -60,8 +78,9 @@ def isum (xs : List Nat) : Nat := xs.foldr (· + ·) 0
 
 def chunks : AE → List Nat
   | .leaf _ c => c
-  | .neg a => chunks a
-  | .add a b => refine' (chunks a) (chunks b)
+  | .un _ a => chunks a
+  | .bin _ a b => refine' (chunks a) (chunks b)
+  | .binS _ a _ => chunks a
   | .slice s e a => sliceChunks s e (chunks a)
   | .rechunk c _ => c
   | .concat a b => chunks a ++ chunks b
@@ -69,11 +88,12 @@ def chunks : AE → List Nat
 
 def den : AE → Option (List Int)
   | .leaf d c => if isum c = d.length then some d else none
-  | .neg a => (den a).map (List.map (fun v => -v))
-  | .add a b =>
+  | .un op a => (den a).map (List.map op.fn)
+  | .bin op a b =>
     match den a, den b with
-    | some xs, some ys => if xs.length = ys.length then some (List.zipWith (· + ·) xs ys) else none
+    | some xs, some ys => if xs.length = ys.length then some (List.zipWith op.fn xs ys) else none
     | _, _ => none
+  | .binS op a s => (den a).map (List.map (fun v => op.fn v s))
   | .slice s e a => (den a).map fun xs => (xs.drop s).take (e - s)
   | .rechunk c a =>
     match den a with
@@ -92,9 +112,9 @@ def rootRewrites (e : AE) : List AE :=
   match e with
   | .rechunk c a => if c = chunks a then [e, a] else [e]
   | .finalize a => [e, if (chunks a).length ≤ 1 then a else .rechunk [isum (chunks a)] a]
-  | .add a b =>
+  | .bin op a b =>
     let c := refine' (chunks a) (chunks b)
-    [e, .add (wrap c a) (wrap c b)]
+    [e, .bin op (wrap c a) (wrap c b)]
   | _ => [e]
 
 def rootRewrites2 (e : AE) : List AE := (rootRewrites e).flatMap rootRewrites
@@ -103,8 +123,9 @@ def rootRewrites2 (e : AE) : List AE := (rootRewrites e).flatMap rootRewrites
     then (recursively) passes on the children. Structural recursion on `after`. -/
 def parStep : AE → AE → Bool
   | e, .leaf d c => (rootRewrites2 e).any fun r => match r with | .leaf d' c' => d' == d && c' == c | _ => false
-  | e, .neg a' => (rootRewrites2 e).any fun r => match r with | .neg a => parStep a a' | _ => false
-  | e, .add a' b' => (rootRewrites2 e).any fun r => match r with | .add a b => parStep a a' && parStep b b' | _ => false
+  | e, .un op' a' => (rootRewrites2 e).any fun r => match r with | .un op a => decide (op = op') && parStep a a' | _ => false
+  | e, .bin op' a' b' => (rootRewrites2 e).any fun r => match r with | .bin op a b => decide (op = op') && parStep a a' && parStep b b' | _ => false
+  | e, .binS op' a' s' => (rootRewrites2 e).any fun r => match r with | .binS op a s => decide (op = op') && s == s' && parStep a a' | _ => false
   | e, .slice s' e' a' => (rootRewrites2 e).any fun r => match r with | .slice s t a => s == s' && t == e' && parStep a a' | _ => false
   | e, .rechunk c' a' => (rootRewrites2 e).any fun r => match r with | .rechunk c a => c == c' && parStep a a' | _ => false
   | e, .concat a' b' => (rootRewrites2 e).any fun r => match r with | .concat a b => parStep a a' && parStep b b' | _ => false
